@@ -174,6 +174,13 @@ pub fn gencfg(prop: &str, tier: &str, rng: &mut Rng) -> GenCfg {
         }
         _ => {}
     }
+    if thorough && matches!(prop, "C01" | "C03" | "C04" | "C05" | "C07" | "C10" | "C11" | "C15") && rng.chance(1, 10) {
+        // deeper bounds, thorough tier only: more threads, longer programs, more hot keys (so
+        // that per-key histories stay short enough for the linearizability search)
+        g.threads = (5, 8);
+        g.ops = (6, 16);
+        g.hot_keys = (6, 14);
+    }
     g
 }
 
